@@ -72,7 +72,7 @@ REQUIRED_COUNTERS = (
         'refused_total', 'negative_slice_cases',
         'oracle_selftest_rejections',
     ])
-MIN_DISTINCT = {'quick': 600, 'thorough': 6000}
+MIN_DISTINCT = {'quick': 400, 'thorough': 4000}
 
 # (algorithm, route) slots for the cheap algorithms, cycled by case index.
 _SLOTS = []
@@ -978,6 +978,18 @@ def run_shard(ctx):
     run_case(ctx, case)
     if i < 2:
       ctx.sample({k: case[k] for k in ('route', 'name', 'desc', 'opts', 'rounds')})
+
+
+def extra_coverage(tier, counters):
+  """Refusals are allowed by the property; show where they concentrate."""
+  out = {}
+  for k, v in counters.items():
+    if k.startswith('refused_on_documented_space:'):
+      out[k.split(':', 1)[1]] = v
+  per_algo = {k.split(':', 1)[1]: v for k, v in counters.items()
+              if k.startswith('suggestions_checked:')}
+  return {'refusals_on_documented_spaces_by_algorithm_and_route': out,
+          'suggestions_checked_by_algorithm': per_algo}
 
 
 def replay(ctx, case):
